@@ -127,6 +127,48 @@ class Universe(object):
             cur = par
         return out
 
+    def links_cyclic(self, doc):
+        """True when the links stored in the document form a cycle: Section L links to T, below
+        (or at) T sits another linking Section M, and following M's link leads back to L.  The
+        fully resolved document is then infinite and Document.finalize descends into its own
+        copies without end (observed: 11 Sections, 27 s, RecursionError).  No property covers such
+        documents (C12 excludes nested links), so the harness does not issue finalize on them.
+        A link whose target is the linking Section itself or one of its ancestors is refused by
+        the library at once and does not count."""
+        secs = [o for o in self.subtree(doc) if kind_of(o) == "sec"]
+        linkers = []
+        for sec in secs:
+            try:
+                path = sec.link
+                target = sec.get_section_by_path(path) if path is not None else None
+            except Exception:
+                target = None
+            if kind_of(target) == "sec":
+                linkers.append((sec, target))
+        if len(linkers) < 2:
+            return False
+        edges = {}
+        for sec, target in linkers:
+            if target is sec or any(target is a for a in self.ancestors(sec)):
+                continue    # refused by merge_check: resolving stops there
+            out = []
+            for other, _ in linkers:
+                if other is sec:
+                    continue
+                if other is target or any(target is a for a in self.ancestors(other)):
+                    out.append(id(other))
+            edges[id(sec)] = out
+        state = {}
+
+        def visit(node):
+            state[node] = 1
+            for nxt in edges.get(node, ()):
+                if state.get(nxt) == 1 or (state.get(nxt) is None and visit(nxt)):
+                    return True
+            state[node] = 2
+            return False
+        return any(state.get(n) is None and visit(n) for n in list(edges))
+
     def subtree(self, obj):
         """All objects below obj (obj included), bounded, identity-deduplicated."""
         out = [obj]
